@@ -40,6 +40,7 @@ type SliceV struct {
 	off      int
 	len, cap int
 	isNil    bool
+	blob     *BlobObj // opaque encoded message (codec model); len is 1
 }
 
 // StrV: concrete string s, or symbolic bytes (fixed length) in sym.
@@ -369,6 +370,9 @@ func (s SliceV) elemPtr(i int) PtrV {
 }
 func (s SliceV) get(i int) Value { return s.elemPtr(i).load() }
 func (s SliceV) elems() []Value {
+	if s.blob != nil {
+		panic(unsupported{"byte access to an encoded message (protobuf wire format is not modelled)"})
+	}
 	if s.len == 0 {
 		return nil
 	}
